@@ -69,13 +69,36 @@ func absTitle(s string) int {
 
 // hclock is the model clock: it only moves when the harness says so.
 type hclock struct {
-	mu  sync.Mutex
-	now int
+	mu     sync.Mutex
+	now    int
+	gate   chan struct{}
+	parked chan struct{}
 }
 
-func (c *hclock) Now() time.Time { c.mu.Lock(); defer c.mu.Unlock(); return concTime(c.now) }
-func (c *hclock) Ticks() int     { c.mu.Lock(); defer c.mu.Unlock(); return c.now }
-func (c *hclock) Advance(d int)  { c.mu.Lock(); c.now += d; c.mu.Unlock() }
+func (c *hclock) Now() time.Time {
+	c.mu.Lock()
+	gate, parked := c.gate, c.parked
+	c.gate, c.parked = nil, nil // only the first reader of the clock is held up
+	t := concTime(c.now)
+	c.mu.Unlock()
+	if gate != nil {
+		close(parked)
+		<-gate
+	}
+	return t
+}
+
+// hold makes the next call of Now block (inside whatever lock its caller holds) until release is
+// closed; parked is closed when that caller has arrived.
+func (c *hclock) hold() (parked chan struct{}, release chan struct{}) {
+	parked, release = make(chan struct{}), make(chan struct{})
+	c.mu.Lock()
+	c.gate, c.parked = release, parked
+	c.mu.Unlock()
+	return parked, release
+}
+func (c *hclock) Ticks() int    { c.mu.Lock(); defer c.mu.Unlock(); return c.now }
+func (c *hclock) Advance(d int) { c.mu.Lock(); c.now += d; c.mu.Unlock() }
 func closedCh() <-chan time.Time {
 	ch := make(chan time.Time)
 	close(ch)
@@ -142,6 +165,9 @@ func (t *idTable) toAbs(concrete string) string {
 	return "?" + concrete
 }
 
+// toAbsOrSeen names a returned id: known ids keep their name, unknown ones get the next g<k>.
+func (t *idTable) toAbsOrSeen(concrete string) string { return t.seen(concrete) }
+
 // seen maps any id found in the table to an abstract id (concurrent part: ids created by other
 // goroutines are named when first seen).
 func (t *idTable) seen(concrete string) string {
@@ -155,6 +181,7 @@ type modeA struct {
 	ID     string `json:"id"`
 	Normal bool   `json:"normal"`
 	Title  int    `json:"title"`
+	Start  int    `json:"start"` // start_time the stored mode carries (-1 = none)
 }
 type activeA struct {
 	ID     string `json:"id"`
@@ -175,7 +202,7 @@ type stateA struct {
 func absModes(t *idTable, ms []*traits.ElectricMode, name func(string) string) []modeA {
 	res := make([]modeA, 0, len(ms))
 	for _, m := range ms {
-		res = append(res, modeA{ID: name(m.GetId()), Normal: m.GetNormal(), Title: absTitle(m.GetTitle())})
+		res = append(res, modeA{ID: name(m.GetId()), Normal: m.GetNormal(), Title: absTitle(m.GetTitle()), Start: absStamp(m.GetStartTime())})
 	}
 	sort.SliceStable(res, func(i, j int) bool { return res[i].ID < res[j].ID })
 	return res
@@ -248,7 +275,16 @@ type opT struct {
 	Am     bool   `json:"am"`
 	Start  int    `json:"start"`
 	Dt     int    `json:"dt"`
+	Src    string `json:"src"` // "lit" | "active" | "listed": where the written message comes from
 }
+
+// retA is the mode a call returned.
+type retA struct {
+	Has bool    `json:"has"`
+	M   activeA `json:"m"`
+}
+
+func noRet() retA { return retA{M: activeA{Start: -1}} }
 
 func maskOf(m string) *fieldmaskpb.FieldMask {
 	switch m {
@@ -263,11 +299,53 @@ func maskOf(m string) *fieldmaskpb.FieldMask {
 }
 
 // call performs one operation; returns the error and the id of the returned mode (abstract).
-func (s *sut) call(api string, op opT) (err error, rid string) {
+func (s *sut) call(api string, op opT) (err error, rid string, got retA) {
 	id := s.ids.toConc(op.ID)
 	mode := &traits.ElectricMode{Id: id, Title: concTitle(op.Title), Normal: op.Normal}
+	if op.Start >= 0 {
+		mode.StartTime = timestamppb.New(concTime(op.Start))
+	}
 	var ret *traits.ElectricMode
 	server := api == "server"
+	got = noRet()
+	defer func() {
+		if err == nil && ret != nil {
+			got = retA{Has: true, M: absActive(ret, s.ids.toAbsOrSeen)}
+		}
+	}()
+	// write back what was read: the client's read-modify-write of the active mode / of a listed mode
+	if op.Op == "Add" || op.Op == "Update" {
+		switch op.Src {
+		case "active":
+			var a *traits.ElectricMode
+			if server {
+				a, _ = s.srv.GetActiveMode(bg, &traits.GetActiveModeRequest{Name: "dev"})
+			} else {
+				a = s.m.ActiveMode()
+			}
+			if a.GetId() != "" {
+				mode = proto.Clone(a).(*traits.ElectricMode)
+				mode.Title = concTitle(op.Title)
+				if op.Op == "Add" {
+					mode.Id = id
+				}
+				id = mode.Id
+			}
+		case "listed":
+			var l []*traits.ElectricMode
+			if server {
+				l, _ = s.listAll()
+			} else {
+				l = s.m.Modes()
+			}
+			for _, m := range l {
+				if m.GetId() == id {
+					mode = proto.Clone(m).(*traits.ElectricMode)
+					mode.Title = concTitle(op.Title)
+				}
+			}
+		}
+	}
 	switch op.Op {
 	case "Create":
 		mode.Id = ""
@@ -277,9 +355,9 @@ func (s *sut) call(api string, op opT) (err error, rid string) {
 			ret, err = s.m.CreateMode(mode)
 		}
 		if err == nil && ret != nil {
-			return nil, s.ids.created(ret.GetId())
+			return nil, s.ids.created(ret.GetId()), got
 		}
-		return err, ""
+		return err, "", got
 	case "Add": // no RPC
 		err = s.m.AddMode(mode)
 	case "Update":
@@ -297,9 +375,6 @@ func (s *sut) call(api string, op opT) (err error, rid string) {
 			err = s.m.DeleteMode(id, resource.WithAllowMissing(op.Am))
 		}
 	case "SetActive": // no RPC
-		if op.Start >= 0 {
-			mode.StartTime = timestamppb.New(concTime(op.Start))
-		}
 		err = s.m.SetActiveMode(mode)
 	case "Change":
 		if server {
@@ -319,7 +394,7 @@ func (s *sut) call(api string, op opT) (err error, rid string) {
 	if err == nil && ret != nil {
 		rid = s.ids.toAbs(ret.GetId())
 	}
-	return err, rid
+	return err, rid, got
 }
 
 // ---- sequential replays --------------------------------------------------------
@@ -341,6 +416,7 @@ type stepLine struct {
 	Post     stateA `json:"post"`
 	Err      string `json:"err"`
 	Rid      string `json:"rid"`
+	Ret      retA   `json:"ret"`
 	Panic    string `json:"panic"`
 	ReadDiff bool   `json:"readDiff"`
 }
@@ -362,7 +438,8 @@ func runSeq() {
 					line.Pre, d1 = s.state(api, s.ids.toAbs)
 				}
 				var err error
-				line.Panic = hx.Catch(func() { err, line.Rid = s.call(api, op) })
+				line.Ret = noRet()
+				line.Panic = hx.Catch(func() { err, line.Rid, line.Ret = s.call(api, op) })
 				line.Err = hx.Code(err)
 				if line.Panic != "" {
 					line.Err = "Panic"
@@ -526,8 +603,12 @@ func randOp(r *rand.Rand, s *sut) opT {
 		id = s.ids.seen(present[r.Intn(len(present))].GetId())
 	}
 	op := opT{Op: kind, ID: id, Normal: r.Intn(10) < 4, Title: r.Intn(3), Mask: "nil", Am: r.Intn(2) == 0, Start: -1}
+	op.Src = "lit"
 	if kind == "Update" {
 		op.Mask = []string{"nil", "normal", "title", "both"}[r.Intn(4)]
+		if r.Intn(4) == 0 { // write back the active mode as read (carries its start_time)
+			op.Src, op.Mask = "active", "nil"
+		}
 	}
 	if kind == "SetActive" {
 		op.Start = setActiveStartBase + r.Intn(3)
@@ -548,6 +629,115 @@ func modesEqual(a, b []modeA) bool {
 		}
 	}
 	return true
+}
+
+// cclearLine is one response of ClearActiveMode / ChangeToNormalMode given while other goroutines
+// were writing.
+type cclearLine struct {
+	Kind  string `json:"kind"`
+	Part  string `json:"part"` // "mix" random operations | "mover" the normal flag is being moved | "forced" forced schedule
+	Run   int    `json:"run"`
+	Round int    `json:"round"`
+	API   string `json:"api"`
+	Err   string `json:"err"`
+	Ret   retA   `json:"ret"`
+}
+
+// clearRaces: a table with two candidate normal modes N1, N2 and a third mode X.
+//
+//	"mover":  one goroutine moves the normal flag N1 -> N2 -> N1 ... with masked updates (flag off,
+//	          then on: never two normal modes), three goroutines clear the active mode, free running.
+//	"forced": a writer (ChangeActiveMode(X)) is parked INSIDE the model lock by a clock whose Now()
+//	          blocks; a clear and then an updater moving the flag queue up behind it; the writer is
+//	          released.  With lookup and switch in one critical section the clear sees either the old
+//	          or the new normal mode; split in two, the updater gets in between.
+//
+// Every clear response is logged; ElectricTrace judges it (a successful clear returns a normal mode).
+func clearRaces(out *hx.Out, movers, clearsPerMover, forced int) {
+	flag := func(s *sut, id string, on bool) {
+		_, err := s.m.UpdateMode(&traits.ElectricMode{Id: id, Normal: on}, resource.WithUpdateMask(maskOf("normal")))
+		if err != nil {
+			hx.Fatal("moving the normal flag of %s: %v", id, err)
+		}
+	}
+	setup := func(seed int64) *sut {
+		s := newSUT(seed)
+		s.clk.Advance(1)
+		for _, m := range []*traits.ElectricMode{{Id: "a", Normal: true, Title: "t1"}, {Id: "b", Title: "t2"}, {Id: "c"}} {
+			if err := s.m.AddMode(m); err != nil {
+				hx.Fatal("setup: %v", err)
+			}
+		}
+		return s
+	}
+	clear := func(s *sut, api string) (string, retA) {
+		var err error
+		got := noRet()
+		if p := hx.Catch(func() { err, _, got = s.call(api, opT{Op: "Clear", Src: "lit", Mask: "nil", Start: -1}) }); p != "" {
+			return "Panic", noRet()
+		}
+		return hx.Code(err), got
+	}
+	for run := 1; run <= movers; run++ {
+		hx.Current(map[string]any{"part": "clear-race mover", "run": run})
+		s := setup(int64(run)*17 + hx.Seed())
+		var stop atomic.Bool
+		var wg, mv sync.WaitGroup
+		mv.Add(1)
+		go func() {
+			defer mv.Done()
+			from, to := "a", "b"
+			for !stop.Load() {
+				flag(s, from, false)
+				flag(s, to, true)
+				from, to = to, from
+			}
+		}()
+		for w := 0; w < 3; w++ {
+			wg.Add(1)
+			api := []string{"server", "model", "server"}[w]
+			go func() {
+				defer wg.Done()
+				for k := 1; k <= clearsPerMover; k++ {
+					e, got := clear(s, api)
+					out.Write(cclearLine{Kind: "cclear", Part: "mover", Run: run, Round: k, API: api, Err: e, Ret: got})
+				}
+			}()
+		}
+		wg.Wait()
+		stop.Store(true)
+		mv.Wait()
+	}
+	if forced == 0 {
+		return
+	}
+	hx.Current(map[string]any{"part": "clear-race forced"})
+	s := setup(hx.Seed() + 5)
+	for round := 1; round <= forced; round++ {
+		api := []string{"server", "model"}[round%2]
+		// a, the normal mode, is not active: the clear is a real switch
+		if _, err := s.m.ChangeActiveMode("b"); err != nil {
+			hx.Fatal("forced setup: %v", err)
+		}
+		s.clk.Advance(1)
+		parked, release := s.clk.hold()
+		var wg sync.WaitGroup
+		wg.Add(3)
+		go func() { defer wg.Done(); _, _ = s.m.ChangeActiveMode("c") }() // reads the clock under the model lock
+		<-parked
+		var e string
+		got := noRet()
+		go func() { defer wg.Done(); e, got = clear(s, api) }()
+		time.Sleep(300 * time.Microsecond) // let it queue up behind the parked writer
+		go func() { defer wg.Done(); flag(s, "a", false); flag(s, "b", true) }()
+		time.Sleep(300 * time.Microsecond)
+		close(release)
+		wg.Wait()
+		out.Write(cclearLine{Kind: "cclear", Part: "forced", Run: 1, Round: round, API: api, Err: e, Ret: got})
+		// back to a = normal
+		flag(s, "b", false)
+		flag(s, "a", true)
+	}
 }
 
 func runConc() {
@@ -653,8 +843,12 @@ func runConc() {
 							api = "server"
 						}
 						var err error
-						p := hx.Catch(func() { err, _ = s.call(api, op) })
+						got := noRet()
+						p := hx.Catch(func() { err, _, got = s.call(api, op) })
 						calls.Add(1)
+						if op.Op == "Clear" && p == "" {
+							out.Write(cclearLine{Kind: "cclear", Part: "mix", Run: run, Round: round, API: api, Err: hx.Code(err), Ret: got})
+						}
 						if p != "" {
 							pmu.Lock()
 							panicked = fmt.Sprintf("%s %+v: %s", api, op, p)
@@ -743,6 +937,7 @@ func runConc() {
 		}
 		cancel()
 	}
+	clearRaces(out, hx.ArgInt("-movers", 4), hx.ArgInt("-clears", 500), hx.ArgInt("-forced", 50))
 }
 
 func main() {
